@@ -427,3 +427,286 @@ def register(reg):      # noqa: F811
     _reg0(reg)
     for c in (UuidDecode(True), UuidDecode(False), OffsetEncode(), OffsetDecode(True), OffsetDecode(False)):
         reg.add(c)
+
+
+from contracts.auxdata import enc_exc, enc_tree, dec_exc, dec_tree, dec_len      # noqa: E402
+
+
+class VariantDecode(CodecBase):
+    """variant: a uint64 alternative index, then that alternative decoded with the *same resolver*"""
+    target = "serialization.py::VariantCodec.decode"
+    props = PROPS + ("C09",)
+    lemmas_on_raise = True
+    params = {"raw_bytes": "stream", "serialization": "ref:Serialization", "subtypes": "list", "get_by_uuid": "val"}
+    modifies = {"$stream.pos": only("raw_bytes"), "$alive": lambda c0, a, r: z3.Not(z3.Select(c0.arr("$alive"), r)),
+                "$kind": lambda c0, a, r: z3.Not(z3.Select(c0.arr("$alive"), r)),
+                "index": lambda c0, a, r: z3.Not(z3.Select(c0.arr("$alive"), r)),
+                "val": lambda c0, a, r: z3.Not(z3.Select(c0.arr("$alive"), r))}
+    result = "ref:Variant"
+
+    def pre(self, c, a):
+        return read_pre(c, a.raw_bytes.t, 8)
+
+    def _p(self, c0, a):
+        s = a.raw_bytes.t
+        idx = int_read(nxt(c0, s, 0, 8), 8, False)
+        rest = z3.SubSeq(content(c0, s), pos(c0, s) + 8, z3.Length(content(c0, s)) - pos(c0, s) - 8)
+        tree = z3.Select(a.subtypes.t, idx)
+        return idx, rest, tree, to_val(a.get_by_uuid)
+
+    def raises(self, c0, a):
+        idx, rest, tree, g = self._p(c0, a)
+        inr = idx < a.subtypes.x
+        return {"UnknownCodecError": z3.And(inr, dec_exc(rest, tree, g) == 1),
+                "Exception": z3.And(inr, dec_exc(rest, tree, g) != 0, dec_exc(rest, tree, g) != 1)}
+
+    def may_raise(self, c0, a):
+        idx, rest, tree, g = self._p(c0, a)
+        # an index that names no alternative: IndexError today; a DecodeError would be as good
+        return {"IndexError": idx >= a.subtypes.x, "DecodeError": idx >= a.subtypes.x}
+
+    def lemmas(self, c0, c1, a, res):
+        s = a.raw_bytes.t
+        B = nxt(c0, s, 0, 8)
+        C, p = content(c0, s), pos(c0, s)
+        return {"byte%d" % i: z3.And(B[i] == C[p + i], 0 <= C[p + i], C[p + i] <= 255) for i in range(8)}
+
+    def post(self, c0, c1, a, res):
+        idx, rest, tree, g = self._p(c0, a)
+        s = a.raw_bytes.t
+        v = res.t
+        return {"in_range": idx < a.subtypes.x,
+                "index": c1.get("index", v) == VInt(idx),
+                "value_decoded_as_that_alternative_with_the_same_resolver": c1.get("val", v) == dec_tree(rest, tree, g),
+                "consumes_8_plus_alternative": pos(c1, s) == pos(c0, s) + 8 + dec_len(rest, tree, g)}
+
+
+class VariantEncode(CodecBase):
+    target = "serialization.py::VariantCodec.encode"
+    params = {"out": "stream", "variant": "val", "serialization": "ref:Serialization", "subtypes": "list"}
+    modifies = {"$stream.content": only("out"), "$stream.pos": only("out")}
+
+    def pre(self, c, a):
+        v, isv, idx, val = self._p(c, a)
+        return dict(append_pre(c, a.out.t), **{"variant_index_is_an_int": z3.Implies(isv, is_VInt(idx))})
+
+    def _p(self, c0, a):
+        v = to_val(a.variant)
+        isv = z3.And(is_VRef(v), c0.kind(ref(v)) == c0.eng.schema.class_id("Variant"))
+        idx = c0.get("index", ref(v))
+        return v, isv, idx, c0.get("val", ref(v))
+
+    def pre2(self, c0, a):
+        return {}
+
+    def raises(self, c0, a):
+        v, isv, idx, val = self._p(c0, a)
+        okidx = z3.And(is_num(idx), 0 <= num(idx), num(idx) < 2 ** 64)
+        inr = z3.And(okidx, num(idx) < a.subtypes.x)
+        tree = z3.Select(a.subtypes.t, num(idx))
+        e = enc_exc(val, tree)
+        return {"EncodeError": z3.Not(isv), "OverflowError": z3.And(isv, is_num(idx), z3.Not(okidx)),
+                "UnknownCodecError": z3.And(isv, inr, e == 1), "Exception": z3.And(isv, inr, e != 0, e != 1)}
+
+    def may_raise(self, c0, a):
+        v, isv, idx, val = self._p(c0, a)
+        return {"IndexError": z3.And(isv, is_num(idx), num(idx) >= a.subtypes.x)}
+
+    def post(self, c0, c1, a, res):
+        v, isv, idx, val = self._p(c0, a)
+        s = a.out.t
+        B = appended(c0, c1, s)
+        tree = z3.Select(a.subtypes.t, num(idx))
+        body = enc_tree(val, tree)
+        return {"prefix_kept": z3.SubSeq(content(c1, s), 0, z3.Length(content(c0, s))) == content(c0, s),
+                "index_as_uint64": int_wire(z3.SubSeq(B, 0, 8), 8, False, num(idx)),
+                "then_that_alternative": z3.And(z3.Length(B) == 8 + z3.Length(body), z3.SubSeq(B, 8, z3.Length(body)) == body)}
+
+
+_reg1 = register
+
+
+def register(reg):      # noqa: F811
+    _reg1(reg)
+    reg.add(VariantDecode())
+    reg.add(VariantEncode())
+
+
+# ------------------------------------------------------------------------------------------- sequence<T>
+from pyvc.contracts import LoopSpec      # noqa: E402
+
+VSeq = z3.SeqSort(Val)
+enc_all = z3.Function("enc_all", VSeq, Val, BSeq)      # concatenation of the element encodings, in order
+
+
+def enc_all_axioms():
+    p = z3.Const("ep", VSeq)
+    x = z3.Const("ex", Val)
+    t = z3.Const("et", Val)
+    return [z3.ForAll([t], enc_all(z3.Empty(VSeq), t) == z3.Empty(BSeq)),
+            z3.ForAll([p, x, t], enc_all(z3.Concat(p, z3.Unit(x)), t) == z3.Concat(enc_all(p, t), enc_tree(x, t)),
+                      patterns=[enc_all(z3.Concat(p, z3.Unit(x)), t)])]
+
+
+class SequenceEncode(CodecBase):
+    """sequence<T>: a uint64 element count, then the elements in order, each through the tree codec of T"""
+    target = "serialization.py::SequenceCodec.encode"
+    params = {"out": "stream", "sequence": "seq", "serialization": "ref:Serialization", "subtypes": "val"}
+    modifies = {"$stream.content": only("out"), "$stream.pos": only("out")}
+
+    def axioms(self, eng):
+        return super().axioms(eng) + enc_all_axioms()
+
+    def pre(self, c, a):
+        return dict(append_pre(c, a.out.t), **{"count_fits_uint64": z3.Length(a.sequence.t) < 2 ** 64,
+                                              "one_subtype": z3.And(Val.is_VPair(to_val(a.subtypes)), is_VNone(snd(to_val(a.subtypes))))})
+
+    def _sub(self, a):
+        return fst(to_val(a.subtypes))
+
+    def may_raise(self, c0, a):
+        i = fresh("i", Int)
+        es, t = a.sequence.t, self._sub(a)
+        bad = lambda code: z3.Exists([i], z3.And(0 <= i, i < z3.Length(es), code(enc_exc(es[i], t))))
+        return {"UnknownCodecError": bad(lambda e: e == 1), "Exception": bad(lambda e: z3.And(e != 0, e != 1))}
+
+    def post(self, c0, c1, a, res):
+        s = a.out.t
+        es, t = a.sequence.t, self._sub(a)
+        B = appended(c0, c1, s)
+        i = fresh("i", Int)
+        return {"prefix_kept": z3.SubSeq(content(c1, s), 0, z3.Length(content(c0, s))) == content(c0, s),
+                "count_as_uint64": int_wire(z3.SubSeq(B, 0, 8), 8, False, z3.Length(es)),
+                "then_the_elements_in_order": z3.SubSeq(B, 8, z3.Length(B) - 8) == enc_all(es, t),
+                "every_element_encodable": z3.ForAll([i], z3.Implies(z3.And(0 <= i, i < z3.Length(es)), enc_exc(es[i], t) == 0))}
+
+
+def _seq_enc_inv(L):
+    c0, a, cur = L.c0, L.a, L.c
+    s = a.out.t
+    es, t = a.sequence.t, fst(to_val(a.subtypes))
+    old, new = content(c0, s), content(cur, s)
+    B = z3.SubSeq(new, z3.Length(old), z3.Length(new) - z3.Length(old))
+    i = fresh("i", Int)
+    r_ = fresh("r", Int)
+    return {"prefix_kept": z3.SubSeq(new, 0, z3.Length(old)) == old,
+            "count_written": int_wire(z3.SubSeq(B, 0, 8), 8, False, z3.Length(es)),
+            "elements_so_far": z3.And(z3.Length(B) >= 8, z3.SubSeq(B, 8, z3.Length(B) - 8) == enc_all(z3.Extract(es, 0, L.k), t)),
+            "at_end": pos(cur, s) == z3.Length(new),
+            "other_streams_untouched": z3.ForAll([r_], z3.Implies(r_ != s, z3.And(content(cur, r_) == content(c0, r_),
+                                                                                  pos(cur, r_) == pos(c0, r_)))),
+            "encodable_so_far": z3.ForAll([i], z3.Implies(z3.And(0 <= i, i < L.k), enc_exc(es[i], t) == 0))}
+
+
+def _seq_enc_lemmas(L):
+    a = L.a
+    es, t = a.sequence.t, fst(to_val(a.subtypes))
+    k = L.k
+    return [z3.Implies(z3.And(0 <= k, k < z3.Length(es)),
+                       enc_all(z3.Extract(es, 0, k + 1), t) == z3.Concat(enc_all(z3.Extract(es, 0, k), t), enc_tree(es[k], t)))]
+
+
+def Ctx_of(L):
+    from pyvc.contracts import Ctx
+    return Ctx(L.eng, dict(L.st.heap))
+
+
+_reg2 = register
+
+
+def register(reg):      # noqa: F811
+    _reg2(reg)
+    reg.add(SequenceEncode())
+    reg.add_loop("serialization.py::SequenceCodec.encode", 0, LoopSpec(_seq_enc_inv, modifies=("$stream.content", "$stream.pos"), lemmas=_seq_enc_lemmas))
+
+
+dec_pos = z3.Function("dec_pos", BSeq, Val, Val, Int, Int, Int)   # stream position after the first k elements of a run of T starting at p0
+
+
+def rest(C, p):
+    return z3.SubSeq(C, p, z3.Length(C) - p)
+
+
+def dec_pos_axioms():
+    C, t, g, p0, k = z3.Const("dC", BSeq), z3.Const("dt", Val), z3.Const("dg", Val), z3.Const("dp", Int), z3.Const("dk", Int)
+    return [z3.ForAll([C, t, g, p0], dec_pos(C, t, g, p0, 0) == p0, patterns=[dec_pos(C, t, g, p0, 0)]),
+            z3.ForAll([C, t, g, p0, k], z3.Implies(k >= 0, dec_pos(C, t, g, p0, k + 1) ==
+                                                   dec_pos(C, t, g, p0, k) + dec_len(rest(C, dec_pos(C, t, g, p0, k)), t, g)),
+                      patterns=[dec_pos(C, t, g, p0, k + 1)])]
+
+
+def elem_at(C, t, g, p0, i):
+    return dec_tree(rest(C, dec_pos(C, t, g, p0, i)), t, g)
+
+
+def elem_exc(C, t, g, p0, i):
+    return dec_exc(rest(C, dec_pos(C, t, g, p0, i)), t, g)
+
+
+class SequenceDecode(CodecBase):
+    """sequence<T>: reads the uint64 count n, then n elements one after the other (each from where the previous one
+    ended) with the tree codec of T and the same resolver; the result is the list of those n values in order"""
+    target = "serialization.py::SequenceCodec.decode"
+    props = PROPS + ("C09",)
+    lemmas_on_raise = True
+    params = {"raw_bytes": "stream", "serialization": "ref:Serialization", "subtypes": "val", "get_by_uuid": "val"}
+    modifies = {"$stream.pos": only("raw_bytes")}
+
+    def axioms(self, eng):
+        return super().axioms(eng) + dec_pos_axioms()
+
+    def pre(self, c, a):
+        return dict(read_pre(c, a.raw_bytes.t, 8), **{"one_subtype": z3.And(Val.is_VPair(to_val(a.subtypes)),
+                                                                            is_VNone(snd(to_val(a.subtypes))))})
+
+    def _p(self, c0, a):
+        s = a.raw_bytes.t
+        n = int_read(nxt(c0, s, 0, 8), 8, False)
+        return s, n, content(c0, s), pos(c0, s) + 8, fst(to_val(a.subtypes)), to_val(a.get_by_uuid)
+
+    def may_raise(self, c0, a):
+        s, n, C, p0, t, g = self._p(c0, a)
+        i = fresh("i", Int)
+        bad = lambda code: z3.Exists([i], z3.And(0 <= i, i < n, code(elem_exc(C, t, g, p0, i))))
+        return {"UnknownCodecError": bad(lambda e: e == 1), "Exception": bad(lambda e: z3.And(e != 0, e != 1))}
+
+    def lemmas(self, c0, c1, a, res):
+        s = a.raw_bytes.t
+        B = nxt(c0, s, 0, 8)
+        C, p = content(c0, s), pos(c0, s)
+        return {"byte%d" % i: z3.And(B[i] == C[p + i], 0 <= C[p + i], C[p + i] <= 255) for i in range(8)}
+
+    def post(self, c0, c1, a, res):
+        s, n, C, p0, t, g = self._p(c0, a)
+        if res.k != "list":
+            return {"result_is_a_list": z3.BoolVal(False)}
+        i = fresh("i", Int)
+        return {"length_is_the_count": res.x == n,
+                "elements_in_order": z3.ForAll([i], z3.Implies(z3.And(0 <= i, i < n), z3.Select(res.t, i) == elem_at(C, t, g, p0, i))),
+                "consumes_count_and_elements": pos(c1, s) == dec_pos(C, t, g, p0, n)}
+
+
+def _seq_dec_inv(L):
+    c0, a, cur = L.c0, L.a, L.c
+    s = a.raw_bytes.t
+    C, p0 = content(c0, s), pos(c0, s) + 8
+    t, g = fst(to_val(a.subtypes)), to_val(a.get_by_uuid)
+    lst = L.env["sequence"]
+    i = fresh("i", Int)
+    r_ = fresh("r", Int)
+    return {"position": pos(cur, s) == dec_pos(C, t, g, p0, L.k),
+            "length": lst.x == L.k,
+            "elements": z3.ForAll([i], z3.Implies(z3.And(0 <= i, i < L.k), z3.Select(lst.t, i) == elem_at(C, t, g, p0, i))),
+            "no_failure_so_far": z3.ForAll([i], z3.Implies(z3.And(0 <= i, i < L.k), elem_exc(C, t, g, p0, i) == 0)),
+            "content_unchanged": content(cur, s) == C,
+            "other_streams_untouched": z3.ForAll([r_], z3.Implies(r_ != s, pos(cur, r_) == pos(c0, r_)))}
+
+
+_reg3 = register
+
+
+def register(reg):      # noqa: F811
+    _reg3(reg)
+    reg.add(SequenceDecode())
+    reg.add_loop("serialization.py::SequenceCodec.decode", 0,
+                 LoopSpec(_seq_dec_inv, modifies=("$stream.pos",), carried={"sequence": "list"}))
